@@ -58,8 +58,8 @@ claim("C22", "Proof, over every control-flow path of handleUnary, handleStreamIn
       "admitted(r) is a ghost predicate whose only source is authenticate's result (establishes clause).", ["the route table itself (that no other registered route reaches sensitive code) is checked by reading initRoutes, not yet by an obligation", "session-delete and page routes are outside by the property's own allow-list"])
 claim("C25", "Proof that VerifyProof computes and compares the MAC and records the nonce only inside the two-sided timestamp window, over exactly this proof's fields and this worker's origin, after the MAC matched; that the nonce cache TTL covers the whole acceptance window (lemma nonceWindowCovered + call-site obligation); that in require mode the inner authenticator is reachable only after a verified proof; proof of the replay cache itself (checkAndAdd): a remembered nonce whose entry has not expired is refused, entries leave only when expired or when the cache is full, the map/list representation invariant (object invariant over fields encapsulated in newNonceCache/checkAndAdd, checked package-wide) is kept; regex lemmas pin the five field grammars to reference languages.",
       "HMAC/ConstantTimeCompare idealisation; clock readings at or after 1970; container/list contracts over its own len/list fields (trusted/containers.spec); the clock callback does not touch the cache.", ["canonical-string injectivity (proofCanonicalString layout) not yet under contract", "order of eviction (container/list is modelled without order: Front/Back return some element)"])
-claim("C27", "Proof that unpackOAuthCookie is panic-free for every cookie string, parses fields only after the MAC verified and keeps every field inside the payload; proof of packOAuthCookie's payload layout; the length-prefix exactness obligations fail for fields >= 64 KiB and are recorded as a known finding; proof that validateOriginalURL returns the prefix, '/' or an at most 2048-byte URL and validateReturnTo '' or the unchanged, at most 2048-byte, http(s) URL that is http-localhost or allow-listed, and that the production caller packs only those validated values (so every field fits its length prefix whenever the server prefix is at most 2048 bytes).",
-      "HMAC/base64 idealisation.", ["the callback handler's state comparison and redirect construction (handleOAuthCallback) are not under contract yet", "round-trip lemma over the two layouts"])
+claim("C27", "Proof that unpackOAuthCookie is panic-free for every cookie string, parses fields only after the MAC verified and keeps every field inside the payload; proof of packOAuthCookie's payload layout; the length-prefix exactness obligations fail for fields >= 64 KiB and are recorded as a known finding; proof that validateOriginalURL returns the prefix, '/' or an at most 2048-byte URL and validateReturnTo '' or the unchanged, at most 2048-byte, http(s) URL that is http-localhost or allow-listed, and that the production caller packs only those validated values (so every field fits its length prefix whenever the server prefix is at most 2048 bytes); proof, over every path of handleOAuthCallback, that the code is exchanged only after the session cookie was opened with this server's key and the fixed max age and the query's state compared equal — whole, byte for byte — to the cookie's state, with the cookie's verifier; that the final Location is either the cookie's return URL followed by the token-carrying fragment or, with no return URL, exactly validateOriginalURL's result for the cookie's original URL under the server prefix, and that no Location is written before cookie and state were accepted.",
+      "HMAC/base64 idealisation. That the cookie's return URL was validated when the cookie was packed rests on the MAC (a cookie that opens was packed by pkceRedirectToOAuth, whose arguments are proved validated).", ["round-trip lemma over the two layouts", "the token exchange itself (exchangeCodeForToken, an HTTP client call)", "URL escaping inside the fragment"])
 
 claim("C33", "Proof (data-flow contracts) that the unique part of every S3 and GCS object key is rendered from a fresh random source: s3.generateUUID formats bytes obtained from crypto/rand, S3Storage.Upload and GCSStorage.Upload build the key as prefix + that text (+ extension).",
       "crypto/rand.Read and uuid.New return values that differ from all others (standard idealisation, trusted/storage.spec).", ["that the storage service does not alias distinct keys"],
@@ -102,9 +102,9 @@ claim("C13", "Proof of the byte layout of the AAD every sealed token is bound to
 claim("C04", "Proof (pipe transport) of the log filter (ClientLog appends a message at or above the requested level after everything emitted before, a lower one changes nothing; logLevelPriority's table; drainLogs hands over everything), of the log / exception batch shape (zero rows, level and message keys, request id echoed whenever one was sent), that WriteUnaryResponse writes every log in slice order then the result batch, that WriteVoidResponse answers with an empty-schema batch, and over every path of serveUnary that the logs are collected after the handler returned or panicked, that a failed call answers with those logs then exactly one exception batch and no result, and a successful one with the same logs, the declared result schema and the request id.",
       "the handler runs inside a recovering function literal (serveUnary$1): what it logs before panicking is in callCtx.logs when the literal is left (Go semantics of recover).",
       ["HTTP unary path (handleUnary)", "the decoded result value equals what the handler returned (Arrow serialization, see C08)", "the ghost order of batches on the wire beyond call order in the code"])
-claim("C12", "Proof that openToken hands plaintext to decompression and gob decoding only after the AEAD opened the ciphertext, under the key derived from the server's whole token key (normalizeTokenKey: a 32-byte key as is, every other key hashed as a whole, never truncated) and the caller-supplied AAD, with the version byte checked and nonce/ciphertext sliced from the fixed offsets; that every authenticity failure is the one uniform RuntimeError; that the cursor is opened under the cursor version and the presenting identity's AAD, the call token likewise; and over every path of handleStreamExchange that the rehydrate callback, dispatch hook, sticky-session resolution, cancel, producer and exchange continuations are reached only after the cursor was opened AND its call resolved.",
+claim("C12", "Proof that openToken hands plaintext to decompression and gob decoding only after the AEAD opened the ciphertext, under the key derived from the server's whole token key (normalizeTokenKey: a 32-byte key as is, every other key hashed as a whole, never truncated) and the caller-supplied AAD, with the version byte checked and nonce/ciphertext sliced from the fixed offsets; that every authenticity failure is the one uniform RuntimeError; that the cursor is opened under the cursor version and the presenting identity's AAD, the call token likewise; and over every path of handleStreamExchange that the rehydrate callback, dispatch hook, sticky-session resolution, cancel, producer and exchange continuations are reached only after the cursor was opened AND its call resolved; and the minting side: sealToken seals under the key derived from the server's whole token key and the caller-supplied AAD with a 24-byte nonce crypto/rand filled (a failed read mints nothing), and lays the raw token out as version byte, nonce, ciphertext — the offsets openToken slices at — before encoding it whole.",
       "AEAD idealisation (Open succeeds only for an unaltered ciphertext sealed under the same key, nonce and AAD); SHA-256 collision freedom for keys that are not 32 bytes.",
-      ["base64 decoding variants", "sealToken side (that what is sealed can be opened)", "the sticky-session token path"])
+      ["base64 decoding variants and that StdEncoding round-trips", "gob / zstd payload round trip (packTokenPayload / unpackTokenPayload, codec correctness)", "the sticky-session token path"])
 claim("C16", "Proof that stripFrameworkTickMetadata returns no framework key (cursor token, call token, cancel) with keys and values paired (loop invariant over a constant key set that is itself checked: built once by the package initialiser, never updated); that the exchange handler is invoked with exactly this turn's context, input and collector and an InputMetadata that came out of that strip applied to the request's own metadata; that a fresh cursor (minted for this call id, state and identity) is merged into the data batch only, and only on a turn that did not fail; that a cancel turn answers 200 with nothing written to the stream and no cursor, doing nothing but the cancel hook (inside a recover) and the empty response.",
       "", ["exactly-one-data-batch as a count over the output (OutputCollector invariant, C06)", "producer continuation metadata", "the externalized-input path of handleStreamExchange is covered by the replay witnesses only"])
 claim("C20", "Proof that resolveRequestID echoes the trimmed caller id exactly when it is non-empty and at most 128 bytes and otherwise returns 16 lower-case hex characters rendered from 8 random bytes; over every path of ServeHTTP that the X-Request-ID header is set before any other call can answer and that, once the serve-start hook and page initialisation have run, the capability headers are set before anything is routed; that addCapabilityHeaders always sets the supported-encodings header (to the rendered producible set) and the externalization header; and that the CORS expose list contains every header the configuration can emit (fixed entries and each conditional one under the condition it is emitted under, including VGI-Auth-Proxy-Required whenever the configuration depends on a proxy).",
